@@ -64,6 +64,9 @@ finding(["C12","C16","C07","C06","C11"], "L0", "tensor.prepDataUnary#useIter",
         "rows 12,20 of riA,riR,nnR,colA,colR", 41)
 
 FIXED = [
+ {"property":"C05","commit":"a2da045","rule":"I5","key":"tensor.hashIntArray","what":"fixed: property=C05 a2da045 hashIntArray returned the byte count of h.Write, so MultIteratorFromDense(a, bT) yielded offsets 0..5 for bT (DESIGN finding 6)"},
+ {"property":"C05","commit":"4a64dbc","rule":"I4","key":"tensor.(*FlatIterator).Reset#isVector","what":"fixed: property=C05 FlatIterator.Reset reverse vector arm used axis 0: a (1,4) view reversed yielded [0 -1 -2 -3] (DESIGN finding 30)"},
+ {"property":"C05","commit":"3afb7f7","rule":"I1","key":"tensor.(*MultIterator).NextValidity, NextValid","what":"fixed: property=C05 3afb7f7 MultIterator.NextValidity/NextValid used the opposite mask polarity: OR-mask [t f t t] made NextValid visit [0 2 3] (also C15; DESIGN finding 7)"},
  {"property":"C03","commit":"a93081a","rule":"T1","key":"tensor.(*Dense).Clone#new object","what":"fixed: property=C03 a93081a Dense.Clone copied old but not transposeWith: under -tags inplacetranspose a.T(2,0,1); c := a.Clone(); c.Transpose() gave [22 0 0 ...] (also C20; DESIGN finding 44)"},
  {"property":"C19","commit":"65180de","rule":"O2","key":"tensor.(*Dense).T(axes), tensor.(*Dense).SafeT(axes), tensor.T(axes), tensor.Transpose(axes), TensorMul(axesB), Contract(bAxes)","what":"fixed: property=C19 65180de Dense.T/SafeT kept the caller's axes slice in transposeWith; UT/Transpose then zeroed and pooled it (axes=[2,0,1] became [0,0,0]); also removes RollAxis' dangling pooled slice under inplacetranspose (DESIGN findings 8, 9)"},
  {"property":"C19","commit":"40cd994","rule":"O3","key":"tensor.Sum(along), tensor.(*Dense).Sum/Max/Min(along), tensor.(StdEng).Sum/Max/Min(along), tensor.(*Dense).Norm(axes)","what":"fixed: property=C19 40cd994 StdEng.reduce sorted the caller's along slice in place: Sum(t,2,0) left []int{2,0} as {0,2} (also C08; DESIGN finding 10)"},
